@@ -208,12 +208,14 @@ def rewrite_all_references(
                     match, rewrite, value
                 ))
 
-        pattern = r'\b' + re.escape(match) + r'\b'
+        # VV: only rewrite whole references, `step:output` must not match inside an already rewritten
+        # `stage1.0#step:output` (`\b` is not enough because `.`, `#` and `-` may be part of a reference)
+        pattern = pattern_whole_reference(match)
 
         try:
-            value = re.sub(pattern, rewrite, value, 1)
+            value = pattern.sub(lambda m, rewrite=rewrite: rewrite, value, 1)
         except Exception:
-            flowirLogger.critical("Failed to res.sub(\"%s\", \"%s\", \"%s\"" % (pattern, rewrite, value))
+            flowirLogger.critical("Failed to res.sub(\"%s\", \"%s\", \"%s\"" % (pattern.pattern, rewrite, value))
             raise
 
     return value
